@@ -3,7 +3,8 @@
    x spec_xsd_types) of the generated definitions and lifted to universally quantified statements; value-level facts
    (integer payloads, strings: unbounded) are proved on top of them. *)
 From Coq Require Import List ZArith Bool Lia.
-From Basyx Require Import model.ConstraintsBase model.TypedBase gen.Gen_IntRanges gen.Gen_TypedValues model.TypedValue.
+From Basyx Require Import model.ConstraintsBase model.TypedBase gen.Gen_IntRanges gen.Gen_TypedValues model.TypedValue
+  gen.Gen_TypedSetters.
 Import ListNotations.
 
 (* ---------------------------------------------------------------- finite universe *)
@@ -356,6 +357,75 @@ Proof.
   destruct (cast_opt mx t) as [b|e] eqn:E2; inversion H; subst r; clear H.
   pose proof (cast_opt_sound _ _ _ Ht H1 E1) as A. pose proof (cast_opt_sound _ _ _ Ht H2 E2) as B.
   unfold wf_range. cbn. split; [|reflexivity]. apply andb_true_intro. split; [destruct a | destruct b]; auto.
+Qed.
+
+(* ---------------------------------------------------------------- the translated setters are the model's steps *)
+(* gen/Gen_TypedSetters.v is regenerated from submodel.py / base.py on every run; these equalities are what ties the
+   holder state machines above to the source: an edit of a setter changes the generated function and breaks them *)
+Definition holder_of (h : holder) (r : (option pcls * option pyval * option pyval) + err) : holder * option err :=
+  match r with
+  | inl (t, a, _) => ({| hopt := hopt h; htype := t; hval := a |}, None)
+  | inr e => (h, Some e)
+  end.
+Definition range_of (r : range) (x : (option pcls * option pyval * option pyval) + err) : option (range * option err) :=
+  match x with
+  | inl (Some t, a, b) => Some ({| rtype := t; rmin := a; rmax := b |}, None)
+  | inl (None, _, _) => None
+  | inr e => Some (r, Some e)
+  end.
+
+Lemma gen_property_value : forall h v, hopt h = false ->
+  hstep h (HSetValue v) = holder_of h (set_Property_value (htype h) (hval h) None v).
+Proof.
+  intros [o t x] v Ho. cbn in Ho. subst o. unfold set_Property_value, hstep, hset_value, holder_of, tcast, bind_tc. cbn.
+  destruct v as [y|]; cbn; [|reflexivity]. destruct t as [t|]; cbn; [|reflexivity].
+  destruct (trivial_cast y t); reflexivity.
+Qed.
+Lemma gen_property_value_type : forall h t, hopt h = false ->
+  hstep h (HSetType t) = holder_of h (set_Property_value_type (htype h) (hval h) None t).
+Proof.
+  intros [o t0 x] t Ho. cbn in Ho. subst o. unfold set_Property_value_type, hstep, hset_type, holder_of, tcast, bind_tc. cbn.
+  destruct x as [y|]; cbn; [|reflexivity]. destruct t as [t|]; cbn; [|reflexivity].
+  destruct (trivial_cast y t); reflexivity.
+Qed.
+Lemma gen_qualifier_as_property : forall t a b v w,
+  set_Qualifier_value t a b v = set_Property_value t a b v /\
+  set_Qualifier_value_type t a b w = set_Property_value_type t a b w.
+Proof. intros; split; reflexivity. Qed.
+Lemma gen_extension_value : forall h v, hopt h = true ->
+  hstep h (HSetValue v) = holder_of h (set_Extension_value (htype h) (hval h) None v).
+Proof.
+  intros [o t x] v Ho. cbn in Ho. subst o. unfold set_Extension_value, hstep, hset_value, holder_of, tcast, bind_tc. cbn.
+  destruct v as [y|]; cbn; [|reflexivity]. destruct t as [t|]; cbn; [|reflexivity].
+  destruct (trivial_cast y t); reflexivity.
+Qed.
+Lemma gen_extension_value_type : forall h t, hopt h = true ->
+  hstep h (HSetType t) = holder_of h (set_Extension_value_type (htype h) (hval h) None t).
+Proof.
+  intros [o t0 x] t Ho. cbn in Ho. subst o. unfold set_Extension_value_type, hstep, hset_type, holder_of, tcast, bind_tc. cbn.
+  destruct x as [y|]; cbn; [|reflexivity]. destruct t as [t|]; cbn; [|reflexivity].
+  destruct (trivial_cast y t); reflexivity.
+Qed.
+Lemma gen_range_min : forall r v,
+  range_of r (set_Range_min (Some (rtype r)) (rmin r) (rmax r) v) = Some (rstep r (RSetMin v)).
+Proof.
+  intros [t a b] v. unfold set_Range_min, rstep, range_of, cast_opt, tcast, bind_tc. cbn.
+  destruct v as [y|]; cbn; [|reflexivity]. destruct (trivial_cast y t); reflexivity.
+Qed.
+Lemma gen_range_max : forall r v,
+  range_of r (set_Range_max (Some (rtype r)) (rmin r) (rmax r) v) = Some (rstep r (RSetMax v)).
+Proof.
+  intros [t a b] v. unfold set_Range_max, rstep, range_of, cast_opt, tcast, bind_tc. cbn.
+  destruct v as [y|]; cbn; [|reflexivity]. destruct (trivial_cast y t); reflexivity.
+Qed.
+Lemma gen_range_value_type : forall r t,
+  range_of r (set_Range_value_type (Some (rtype r)) (rmin r) (rmax r) (Some t)) = Some (rstep r (RSetType t)).
+Proof.
+  intros [t0 a b] t. unfold set_Range_value_type, rstep, range_of, cast_opt, tcast, bind_tc. cbn.
+  destruct a as [x|]; cbn.
+  - destruct (trivial_cast x t); cbn; [|reflexivity]. destruct b as [y|]; cbn; [|reflexivity].
+    destruct (trivial_cast y t); reflexivity.
+  - destruct b as [y|]; cbn; [|reflexivity]. destruct (trivial_cast y t); reflexivity.
 Qed.
 
 (* ---------------------------------------------------------------- non-vacuity *)
